@@ -5,6 +5,7 @@
 
 #include <algorithm>
 #include <csignal>
+#include <ctime>
 #include <cstdlib>
 #include <fcntl.h>
 #include <fstream>
@@ -368,11 +369,21 @@ static int mode_rc(long seed, long cases, long maxsize, long len)
 	setenv("RC_PARAMS", env, 1);
 	double k = std::max(1.0, (double)len / (double)maxsize);
 	auto gen = rc::gen::scale(k, rc::gen::container<std::vector<uint32_t>>(rc::gen::arbitrary<uint32_t>()));
+	// shrinking is bounded by wall time (it only decides how small the reported case is, never whether one is
+	// reported): once the budget is spent every further shrink candidate is declared passing without being run,
+	// so rapidcheck settles on the smallest failing tape found so far
+	time_t first_fail_at = 0;
+	long shrink_budget = getenv("VERIF_SHRINK_BUDGET") ? atol(getenv("VERIF_SHRINK_BUDGET")) : 60;
 	bool ok = rc::check(H_NAME, [&]() {
 		std::vector<uint32_t> raw = *gen;
+		if (first_fail_at && time(nullptr) - first_fail_at > shrink_budget)
+			return;
 		bool pass = run_tape(raw.data(), raw.size(), false, false, nullptr, nullptr, nullptr);
-		if (!pass)
+		if (!pass) {
 			g_counting = false; // everything after the first failure is shrinking
+			if (!first_fail_at)
+				first_fail_at = time(nullptr);
+		}
 		RC_ASSERT(pass);
 	});
 	if (!ok && g_have_fail)
